@@ -13,7 +13,7 @@ from ..tracelib import split_calls
 PID = "C04"
 ENTRIES = ["Retry.call", "AsyncRetry.call", "Policy.call", "AsyncPolicy.call",
            "RetryPolicy.call", "AsyncRetryPolicy.call", "Retry.context", "AsyncRetry.context"]
-ALPHA = ["ok", "x:T", "r:T", "x:U", "r:U", "x:P", "r:P"]
+ALPHA = ["ok", "x:T", "r:T", "x:U", "r:U", "x:P", "r:P", "x:T@"]
 
 META = {
     "level": "model_checking",
